@@ -82,6 +82,19 @@ type StructCfg struct {
 	Lean string   `json:"lean"`
 	Skip []string `json:"skip"` // fields left out (locks, …); embedded fields are always left out
 	Only []string `json:"only"` // if given: the fields that are kept, every other field is left out
+	// fields whose Go type is read as another (pseudo) type of "leantypes": field name -> type (e.g. a parent
+	// pointer that may be nil while the pointers of the same Go type in a children slice never are)
+	FieldTypes map[string]string `json:"field_types"`
+}
+
+// fieldType: the Go type a field is read with
+func (sc *StructCfg) fieldType(name, declared string) string {
+	if sc != nil {
+		if alias, ok := sc.FieldTypes[name]; ok {
+			return alias
+		}
+	}
+	return declared
 }
 
 func (sc *StructCfg) leftOut(name string) bool {
@@ -113,6 +126,27 @@ type FuncCfg struct {
 	ErrorValue bool `json:"error_value"`
 	// parameters whose Go type is read as another (pseudo) type of "leantypes": parameter name -> type
 	ParamTypes map[string]string `json:"param_types"`
+	// the function calls itself: the definition gets a first parameter `fuel : Nat`, every call of itself uses one
+	// unit, and running out of fuel is the outcome `none` of the panic layer (the equivalence theorem shows that
+	// enough fuel — the measure named in the notes — never runs out)
+	Fuel bool `json:"fuel"`
+	// not the function but one of its conditions is translated, as a predicate over the variables it reads
+	// (for functions that cannot be translated as a whole: the decision between two reads of a socket)
+	Extract *ExtractCfg `json:"extract"`
+}
+
+// ExtractCfg: the nth condition (source order, from 0) of the given kind — "if" or "for" — among the
+// conditions of the function that read exactly variables of "vars" (name -> Go type; locals, parameters and
+// package-level variables alike) and nothing else that is not a constant
+type ExtractCfg struct {
+	Kind string            `json:"kind"`
+	Nth  int               `json:"nth"`
+	Vars map[string]string `json:"vars"`
+	// the order of the parameters of the predicate
+	Order []string `json:"order"`
+	// kind "assign": the right-hand side of the nth assignment (`=` or `:=`, one variable) to this local variable,
+	// as a function of the variables of "vars" (calls are translated as everywhere; anything else is rejected)
+	Target string `json:"target"`
 }
 
 type Callee struct {
@@ -598,6 +632,7 @@ type binding struct {
 	grp  *group
 	cv   *cval
 	cal  *Callee
+	nn   bool // a map that is known not to be nil (made by make in this function)
 }
 
 type group struct {
@@ -630,6 +665,7 @@ type val struct {
 	t   string // Go type ("" unknown, "untyped-int")
 	cv  *cval
 	opt *optres // a fallible (value…, error) result, not a first-class value
+	nn  bool    // a map value that is not nil (make)
 }
 
 type optres struct {
@@ -1013,6 +1049,9 @@ func (ft *ftrans) expr(x ast.Expr, e env, pre *[]prelude) val {
 		*pre = append(*pre, prelude{n, "Gen.Rt.slice " + atom(xs.s) + " " + lo + " " + hi})
 		return val{s: n, t: xs.t}
 	case *ast.CompositeLit:
+		if st, isSt := c.Type.(*ast.StructType); isSt && (st.Fields == nil || len(st.Fields.List) == 0) && len(c.Elts) == 0 {
+			return val{s: "()", t: "struct{}"}
+		}
 		at, ok := c.Type.(*ast.ArrayType)
 		if !ok || at.Len != nil {
 			failf("composite literal outside the subset")
@@ -1122,7 +1161,39 @@ func (ft *ftrans) selector(c *ast.SelectorExpr, e env, pre *[]prelude) val {
 							failf("field %s of %s is left out of the translated structure", nm.Name, tp)
 						}
 						anyFile := p.fileOf(st)
-						return val{s: "(" + atom(x.s) + "." + nm.Name + ")", t: ft.t.typeOf(p, anyFile, fl.Type)}
+						return val{s: "(" + atom(x.s) + "." + nm.Name + ")", t: ft.t.structOf(tp).fieldType(nm.Name, ft.t.typeOf(p, anyFile, fl.Type))}
+					}
+				}
+			}
+			// a promoted field: through an embedded field that the translated structure keeps
+			if sc := ft.t.structOf(tp); sc != nil && len(sc.Only) > 0 {
+				for _, fl := range st.Fields.List {
+					en := embeddedName(fl.Type)
+					if len(fl.Names) != 0 || en == "" || sc.leftOut(en) || en == c.Sel.Name {
+						continue
+					}
+					inner := &ast.SelectorExpr{X: &ast.SelectorExpr{X: c.X, Sel: ast.NewIdent(en)}, Sel: c.Sel}
+					var v val
+					found := func() (ok bool) {
+						defer func() {
+							if r := recover(); r != nil {
+								if _, isF := r.(failure); !isF {
+									panic(r)
+								}
+								ok = false
+							}
+						}()
+						v = ft.selector(inner, e, pre)
+						return true
+					}()
+					if found {
+						return v
+					}
+				}
+				// the embedded field itself, named
+				for _, fl := range st.Fields.List {
+					if len(fl.Names) == 0 && embeddedName(fl.Type) == c.Sel.Name && !sc.leftOut(c.Sel.Name) {
+						return val{s: "(" + atom(x.s) + "." + c.Sel.Name + ")", t: sc.fieldType(c.Sel.Name, ft.t.typeOf(p, p.fileOf(st), fl.Type))}
 					}
 				}
 			}
@@ -1420,6 +1491,9 @@ func (ft *ftrans) argKeys(x ast.Expr, e env) []string {
 	if cv := ft.constOf(x, e); cv != nil {
 		keys = append(keys, cv.render())
 	}
+	if id, ok := y.(*ast.Ident); ok && id.Name == "nil" && id.Obj == nil {
+		keys = append(keys, "nil")
+	}
 	if sel, ok := y.(*ast.SelectorExpr); ok {
 		if id, ok := sel.X.(*ast.Ident); ok && id.Obj == nil {
 			if path, ok := ft.f.pkg.imports[ft.f.file][id.Name]; ok {
@@ -1553,7 +1627,13 @@ func (ft *ftrans) applyCallee(c *Callee, recv string, args []ast.Expr, e env, pr
 }
 
 func (ft *ftrans) callFn(g *fn, recv *val, args []ast.Expr, e env, pre *[]prelude) val {
-	ft.t.translate(g)
+	self := g == ft.f && g.cfg.Fuel
+	if !self {
+		if g.cfg.Fuel {
+			failf("a call of the fuelled function %s from another function is outside the subset", g.cfg.Go)
+		}
+		ft.t.translate(g)
+	}
 	if g.err != "" {
 		failf("calls %s, which is not translated", g.cfg.Go)
 	}
@@ -1600,6 +1680,9 @@ func (ft *ftrans) callFn(g *fn, recv *val, args []ast.Expr, e env, pre *[]prelud
 	term := ft.t.mod.Namespace + "." + g.cfg.Lean
 	if ft.t.mod.ParamArgs != "" {
 		term += " " + ft.t.mod.ParamArgs
+	}
+	if self {
+		term += " fuel"
 	}
 	if len(as) > 0 {
 		term += " " + strings.Join(as, " ")
@@ -1680,6 +1763,23 @@ func (ft *ftrans) call(c *ast.CallExpr, e env, pre *[]prelude) val {
 					failf("new(%s): pointers to %s have a configured reading", tp, tp)
 				}
 				return val{s: ft.zero(tp), t: "*" + tp}
+			}
+			if f.Name == "make" && f.Obj == nil && (len(c.Args) == 1 || len(c.Args) == 2) {
+				// make(map[K]V[, n]) or make(M) for a named map type: the empty, non-nil map
+				var mt string
+				func() {
+					defer func() {
+						if r := recover(); r != nil {
+							if _, ok := r.(failure); !ok {
+								panic(r)
+							}
+						}
+					}()
+					mt = ft.t.typeOf(ft.f.pkg, ft.f.file, c.Args[0])
+				}()
+				if _, _, isMap := mapParts(ft.t.under(mt)); isMap {
+					return val{s: "(some [])", t: mt, nn: true}
+				}
 			}
 			if f.Name == "make" && f.Obj == nil && (len(c.Args) == 2 || len(c.Args) == 3) {
 				// make([]T, 0[, cap]): the empty slice
@@ -1835,7 +1935,7 @@ func (ft *ftrans) zero(tp string) string {
 				if sc.leftOut(nm.Name) {
 					continue
 				}
-				fs = append(fs, nm.Name+" := "+ft.zero(ft.t.typeOf(p, file, fl.Type)))
+				fs = append(fs, nm.Name+" := "+ft.zero(sc.fieldType(nm.Name, ft.t.typeOf(p, file, fl.Type))))
 			}
 		}
 		return "({ " + strings.Join(fs, ", ") + " } : " + ft.t.leanType(tp) + ")"
@@ -1921,6 +2021,9 @@ func (ft *ftrans) block(stmts []ast.Stmt, e env, k cont) node {
 			key := ft.coerce(kt, ft.expr(dc.Args[1], e, &pre))
 			return ft.wrap(pre, nLet{name: b.lean, val: "{ " + b.lean + " with " + field + " := Gen.Rt.Map.erase " + atom(m.s) + " " + atom(key.s) + " }", body: rest(e)})
 		}
+		if n := ft.updateCall(s.X, e, rest); n != nil {
+			return n
+		}
 		if ce, ok := s.X.(*ast.CallExpr); ok {
 			if ft.ignored(ce) {
 				return rest(e)
@@ -1936,6 +2039,44 @@ func (ft *ftrans) block(stmts []ast.Stmt, e env, k cont) node {
 	}
 	failf("statement outside the subset (%T)", stmts[0])
 	return nil
+}
+
+// updateCall: a statement `x.M(args)` on a local variable x of a library type whose callee entry has kind
+// "update": the template is the new value of x (a hash object that is written to, a buffer that grows)
+func (ft *ftrans) updateCall(x ast.Expr, e env, rest cont) node {
+	ce, ok := x.(*ast.CallExpr)
+	if !ok {
+		return nil
+	}
+	sel, ok := ce.Fun.(*ast.SelectorExpr)
+	if !ok {
+		return nil
+	}
+	id, ok := sel.X.(*ast.Ident)
+	if !ok || id.Obj == nil {
+		return nil
+	}
+	b, ok := e[id.Obj]
+	if !ok || b.kind != bVar {
+		return nil
+	}
+	cal := ft.findCallee(b.typ+"."+sel.Sel.Name, ce.Args, e)
+	if cal == nil || cal.Kind != "update" {
+		return nil
+	}
+	if ft.inLoop || ft.inFold {
+		failf("an updating call inside a loop is outside the subset")
+	}
+	var pre []prelude
+	var as []string
+	for _, a := range ce.Args {
+		v := ft.expr(a, e, &pre)
+		if v.opt != nil {
+			failf("a multi-valued call as an argument is outside the subset")
+		}
+		as = append(as, atom(v.s))
+	}
+	return ft.wrap(pre, nLet{name: b.lean, typ: ft.t.leanType(b.typ), val: subst(cal.Lean, atom(b.lean), as), body: rest(e)})
 }
 
 // ignored: a call listed in "ignore_calls" — by import path ("go.dedis.ch/onet/v3/log.Lvl3") or, for methods,
@@ -2119,7 +2260,7 @@ func (ft *ftrans) ret(s *ast.ReturnStmt, e env) node {
 	if len(f.results) == 1 && !f.fallible && len(f.mutated) == 0 {
 		if ce, ok := unparen(s.Results[0]).(*ast.CallExpr); ok {
 			g := ft.calledFn(ce, e)
-			if g != nil {
+			if g != nil && g != ft.f {
 				ft.t.translate(g)
 			}
 			if g != nil && g.err == "" && g.mayPanic && !g.fallible {
@@ -2534,6 +2675,20 @@ func (ft *ftrans) assign(s *ast.AssignStmt, e env, k cont) node {
 	}
 	// x.f[k] = v on a map field: the struct variable is rebound; writing to the nil map panics
 	if ix, ok := s.Lhs[0].(*ast.IndexExpr); ok && len(s.Lhs) == 1 && s.Tok == token.ASSIGN {
+		if id, isID := ix.X.(*ast.Ident); isID && id.Obj != nil {
+			// m[k] = v on a local map that was made by make: it is not nil, the write cannot panic
+			b, ok := e[id.Obj]
+			kt, vt, isMap := mapParts(ft.t.under(b.typ))
+			if !ok || b.kind != bVar || !isMap {
+				failf("assignment to an element of %s, which is not a local map", id.Name)
+			}
+			if !b.nn {
+				failf("assignment to an entry of the local map %s, which is not known to be made by make", id.Name)
+			}
+			key := ft.coerce(kt, ft.expr(ix.Index, e, &pre))
+			v := ft.coerce(vt, ft.expr(s.Rhs[0], e, &pre))
+			return ft.wrap(pre, nLet{name: b.lean, typ: ft.t.leanType(b.typ), val: "Gen.Rt.Map.put " + atom(b.lean) + " " + atom(key.s) + " " + atom(v.s), body: k(e)})
+		}
 		b, field, m := ft.mapField(ix.X, e)
 		kt, vt, _ := mapParts(ft.t.under(m.t))
 		key := ft.coerce(kt, ft.expr(ix.Index, e, &pre))
@@ -2628,7 +2783,7 @@ func (ft *ftrans) assign(s *ast.AssignStmt, e env, k cont) node {
 	if tp == "" || tp == "nil" || tp == "errflag" {
 		failf("the type of %s cannot be inferred", o.Name)
 	}
-	return ft.wrap(pre, nLet{name: name, typ: ft.t.leanType(tp), val: v.s, body: k(e.with(o, binding{kind: bVar, lean: name, typ: tp}))})
+	return ft.wrap(pre, nLet{name: name, typ: ft.t.leanType(tp), val: v.s, body: k(e.with(o, binding{kind: bVar, lean: name, typ: tp, nn: v.nn}))})
 }
 
 func (ft *ftrans) decl(s *ast.DeclStmt, e env, k cont) node {
@@ -2746,7 +2901,16 @@ func (ft *ftrans) canPanic(x ast.Expr, e env) bool {
 	found := false
 	ast.Inspect(x, func(n ast.Node) bool {
 		switch c := n.(type) {
-		case *ast.IndexExpr, *ast.SliceExpr:
+		case *ast.IndexExpr:
+			if id, isID := c.X.(*ast.Ident); isID && id.Obj != nil {
+				if b, ok := e[id.Obj]; ok && b.kind == bVar && b.nn {
+					if _, _, isMap := mapParts(ft.t.under(b.typ)); isMap {
+						return true // reading or writing an entry of a map made by make cannot panic
+					}
+				}
+			}
+			found = true
+		case *ast.SliceExpr:
 			found = true
 		case *ast.SelectorExpr:
 			if len(ft.t.mod.NilTests) > 0 {
@@ -2758,9 +2922,13 @@ func (ft *ftrans) canPanic(x ast.Expr, e env) bool {
 			}
 		case *ast.CallExpr:
 			if g := ft.calledFn(c, e); g != nil {
-				ft.t.translate(g)
-				if g.mayPanic {
-					found = true
+				if g == ft.f {
+					found = true // a call of itself (fuel)
+				} else {
+					ft.t.translate(g)
+					if g.mayPanic {
+						found = true
+					}
 				}
 			}
 		}
@@ -3300,6 +3468,10 @@ func (t *translator) translate(g *fn) {
 	if g.err != "" {
 		failf("%s", g.err)
 	}
+	if g.cfg.Extract != nil {
+		t.extract(g)
+		return
+	}
 	func() {
 		defer func() {
 			if r := recover(); r != nil {
@@ -3309,12 +3481,146 @@ func (t *translator) translate(g *fn) {
 				g.mayPanic = true
 			}
 		}()
-		g.mayPanic = false
+		g.mayPanic = g.cfg.Fuel
 		t.translateBody(g)
 	}()
 	if g.mayPanic && g.text == "" {
 		t.translateBody(g)
 	}
+}
+
+// extract: one condition of the function as a predicate over the variables it reads
+func (t *translator) extract(g *fn) {
+	ex := g.cfg.Extract
+	if ex.Kind != "if" && ex.Kind != "for" && ex.Kind != "assign" {
+		failf("extract: kind must be \"if\", \"for\" or \"assign\"")
+	}
+	var conds []ast.Expr
+	ast.Inspect(g.decl.Body, func(n ast.Node) bool {
+		switch c := n.(type) {
+		case *ast.IfStmt:
+			if ex.Kind == "if" {
+				conds = append(conds, c.Cond)
+			}
+		case *ast.ForStmt:
+			if ex.Kind == "for" && c.Cond != nil {
+				conds = append(conds, c.Cond)
+			}
+		case *ast.AssignStmt:
+			if ex.Kind == "assign" && len(c.Lhs) == 1 && len(c.Rhs) == 1 && (c.Tok == token.ASSIGN || c.Tok == token.DEFINE) {
+				if id, ok := c.Lhs[0].(*ast.Ident); ok && id.Name == ex.Target {
+					conds = append(conds, c.Rhs[0])
+				}
+			}
+		case *ast.KeyValueExpr: // a field of a composite literal: `target: value`
+			if id, ok := c.Key.(*ast.Ident); ok && ex.Kind == "assign" && id.Name == ex.Target {
+				conds = append(conds, c.Value)
+			}
+		}
+		return true
+	})
+	ft := &ftrans{t: t, f: g, names: map[*ast.Object]string{}, used: map[string]bool{}}
+	// the conditions that read variables of the list only (constants of the package are allowed)
+	var hits []ast.Expr
+	for _, c := range conds {
+		if ex.Kind == "assign" {
+			hits = append(hits, c) // what the right-hand side may contain is decided by the translation itself
+			continue
+		}
+		ok, any := true, false
+		ast.Inspect(c, func(n ast.Node) bool {
+			switch x := n.(type) {
+			case *ast.SelectorExpr:
+				ok = false // fields, package members: not a predicate over plain variables
+			case *ast.CallExpr, *ast.IndexExpr, *ast.SliceExpr, *ast.TypeAssertExpr, *ast.StarExpr:
+				ok = false
+			case *ast.Ident:
+				if x.Name == "true" || x.Name == "false" || x.Name == "nil" {
+					return true
+				}
+				if _, isVar := ex.Vars[x.Name]; isVar {
+					any = true
+					return true
+				}
+				if _, isConst := g.pkg.consts[x.Name]; isConst && (x.Obj == nil || x.Obj.Kind == ast.Con) {
+					return true
+				}
+				ok = false
+			}
+			return ok
+		})
+		if ok && any {
+			hits = append(hits, c)
+		}
+	}
+	if ex.Nth < 0 || ex.Nth >= len(hits) {
+		failf("extract: the function has %d %s-conditions over %v, number %d asked for", len(hits), ex.Kind, ex.Order, ex.Nth)
+	}
+	cond := hits[ex.Nth]
+	// bind every occurrence of a listed variable (by object when it has one, else by name through a fresh object)
+	e := env{}
+	byName := map[string]*ast.Object{}
+	var ps []string
+	for _, name := range ex.Order {
+		tp, ok := ex.Vars[name]
+		if !ok {
+			failf("extract: %s of \"order\" is not in \"vars\"", name)
+		}
+		ps = append(ps, "("+name+" : "+t.leanType(tp)+")")
+		ft.used[name] = true
+	}
+	if len(ex.Order) != len(ex.Vars) {
+		failf("extract: \"order\" must list every variable of \"vars\" once")
+	}
+	for _, x := range g.cfg.Extra {
+		cal := t.paramCallee(x)
+		ps = append(ps, "("+cal.PName+" : "+cal.Param+")")
+		ft.used[cal.PName] = true
+	}
+	ast.Inspect(cond, func(n ast.Node) bool {
+		if x, ok := n.(*ast.Ident); ok {
+			if tp, isVar := ex.Vars[x.Name]; isVar {
+				if x.Obj == nil {
+					if byName[x.Name] == nil {
+						byName[x.Name] = ast.NewObj(ast.Var, x.Name)
+					}
+					x.Obj = byName[x.Name]
+				}
+				ft.names[x.Obj] = x.Name
+				e[x.Obj] = binding{kind: bVar, lean: x.Name, typ: tp}
+			}
+		}
+		return true
+	})
+	var pre []prelude
+	v := ft.expr(cond, e, &pre)
+	rt := "Bool"
+	if ex.Kind == "assign" {
+		if v.opt != nil || v.t == "" || v.t == "nil" || v.t == "nonnil" {
+			failf("extract: the right-hand side has no single value")
+		}
+		tp := v.t
+		if tp == "untyped-int" {
+			tp = "int"
+		}
+		rt = t.leanType(tp)
+	} else {
+		ft.boolLike(v)
+	}
+	if len(pre) > 0 {
+		failf("extract: the expression can panic")
+	}
+	var b strings.Builder
+	what := ex.Kind + "-condition number " + strconv.Itoa(ex.Nth)
+	if ex.Kind == "assign" {
+		what = "value assigned to " + ex.Target + " (assignment number " + strconv.Itoa(ex.Nth) + ")"
+	}
+	fmt.Fprintf(&b, "/-- `%s` func `%s`: its %s over %s -/\n", pkgLabel(g.pkg.dir), g.cfg.Go, what, strings.Join(ex.Order, ", "))
+	if t.mod.TypeParams != "" {
+		ps = append([]string{t.mod.TypeParams}, ps...)
+	}
+	fmt.Fprintf(&b, "def %s %s : %s :=\n  %s\n", g.cfg.Lean, strings.Join(ps, " "), rt, v.s)
+	g.text = b.String()
 }
 
 // translateBody: one attempt with the current value of g.mayPanic
@@ -3335,6 +3641,9 @@ func (t *translator) translateBody(g *fn) {
 		cal := t.paramCallee(x)
 		ps = append(ps, "("+cal.PName+" : "+cal.Param+")")
 		ft.used[cal.PName] = true
+	}
+	if g.cfg.Fuel {
+		ft.used["fuel"] = true
 	}
 	var rts []string
 	for _, r := range g.results {
@@ -3359,7 +3668,9 @@ func (t *translator) translateBody(g *fn) {
 	})
 	var b strings.Builder
 	fmt.Fprintf(&b, "/-- `%s` func `%s`", pkgLabel(g.pkg.dir), g.cfg.Go)
-	if g.mayPanic {
+	if g.mayPanic && g.cfg.Fuel {
+		b.WriteString("; outer `none` = run-time panic or out of fuel (the function calls itself)")
+	} else if g.mayPanic {
 		b.WriteString("; outer `none` = run-time panic (index or slice out of range)")
 	}
 	if g.fallible {
@@ -3373,11 +3684,19 @@ func (t *translator) translateBody(g *fn) {
 		}
 		fmt.Fprintf(&b, "/- the result carries the final value of %s (updated through the pointer) -/\n", strings.Join(ms, ", "))
 	}
+	if g.cfg.Fuel {
+		ps = append([]string{"(fuel : Nat)"}, ps...)
+	}
 	if t.mod.TypeParams != "" {
 		ps = append([]string{t.mod.TypeParams}, ps...)
 	}
 	fmt.Fprintf(&b, "def %s %s : %s :=\n", g.cfg.Lean, strings.Join(ps, " "), rt)
-	pr(&b, body, "  ")
+	if g.cfg.Fuel {
+		b.WriteString("  match fuel with\n  | 0 => none\n  | fuel + 1 =>\n")
+		pr(&b, body, "    ")
+	} else {
+		pr(&b, body, "  ")
+	}
 	g.text = b.String()
 }
 
@@ -3396,6 +3715,20 @@ func main() {
 		os.Exit(1)
 	}
 	fmt.Println("go2lean: ok")
+}
+
+// embeddedName: the field name of an embedded field (the name of its type)
+func embeddedName(tp ast.Expr) string {
+	if s, ok := tp.(*ast.StarExpr); ok {
+		tp = s.X
+	}
+	switch x := tp.(type) {
+	case *ast.Ident:
+		return x.Name
+	case *ast.SelectorExpr:
+		return x.Sel.Name
+	}
+	return ""
 }
 
 // emitStruct: a struct type of the repo as a Lean structure with the same field names
@@ -3420,6 +3753,12 @@ func (t *translator) emitStruct(sc *StructCfg) (txt string, errmsg string) {
 	var fields []string
 	for _, fl := range st.Fields.List {
 		if len(fl.Names) == 0 {
+			// embedded: kept only when "only" names it (by the name of its type); its fields are then reachable
+			// as promoted fields
+			if en := embeddedName(fl.Type); en != "" && len(sc.Only) > 0 && !sc.leftOut(en) {
+				fields = append(fields, "  "+en+" : "+t.leanType(sc.fieldType(en, t.typeOf(p, file, fl.Type))))
+				continue
+			}
 			left = append(left, render(fl.Type)) // embedded (sync.Mutex …)
 			continue
 		}
@@ -3432,7 +3771,7 @@ func (t *translator) emitStruct(sc *StructCfg) (txt string, errmsg string) {
 			if leanKeywords[name] {
 				failf("field %s has the name of a Lean keyword", name)
 			}
-			fields = append(fields, "  "+name+" : "+t.leanType(t.typeOf(p, file, fl.Type)))
+			fields = append(fields, "  "+name+" : "+t.leanType(sc.fieldType(name, t.typeOf(p, file, fl.Type))))
 		}
 	}
 	fmt.Fprintf(&b, "/-- `%s` type `%s`", pkgLabel(sc.Pkg), sc.Go)
@@ -3471,9 +3810,14 @@ func run(repo, leanDir, cfgPath string) (failed []string, err error) {
 		for _, fc := range m.Funcs {
 			p := t.loadPkg(fc.Pkg)
 			g := &fn{cfg: fc, pkg: p, decl: p.funcs[fc.Go], file: p.fnFile[fc.Go]}
-			t.funcs[fc.Pkg+":"+fc.Go] = g
+			if fc.Extract != nil {
+				// a condition of the function, not the function: never a callee of translated code
+				t.funcs[fc.Pkg+":"+fc.Go+"#"+fc.Lean] = g
+			} else {
+				t.funcs[fc.Pkg+":"+fc.Go] = g
+			}
 			t.order = append(t.order, g)
-			if g.decl != nil {
+			if g.decl != nil && fc.Extract == nil {
 				func() {
 					defer func() {
 						if r := recover(); r != nil {
